@@ -1397,9 +1397,53 @@ def model_cases(rng, tier):
         yield Case(history_line(hs), (lambda hs=hs: impl_history(hs)), meta={"history": hs})
 
 
+def chk_caller_lists(inp):
+    """create_tx(list of Spendable objects, list of payables): what the caller does with ITS lists afterwards (reverse, pop,
+    append, overwrite a slot, clear) changes nothing on the transaction it was given — pairing, total_in, fee stay
+    (seed C13-e1 stored the caller's list as tx.unspents)"""
+    spec, fee, edits = inp["spec"], inp["fee"], inp["edits"]
+    sps = [Spendable(s[0], bytes.fromhex(s[1]), bytes.fromhex(s[2]), s[3]) for s in spec["spendables"]]
+    pays = mk_payables(spec)
+    try:
+        tx = network.tx_utils.create_tx(sps, pays, fee=fee, lock_time=spec["lock_time"], version=spec["version"])
+    except Exception:
+        return None
+    snap = lambda: (c_tx(tx), call13(tx.total_in), call13(tx.fee), call13(tx.total_out))
+    before = snap()
+    for e in edits:
+        for l in (sps, pays):
+            try:
+                if e == "reverse":
+                    l.reverse()
+                elif e == "pop" and l:
+                    l.pop()
+                elif e == "pop0" and l:
+                    l.pop(0)
+                elif e == "append":
+                    l.append(Spendable(12345, b"\x51", b"\x22" * 32, 9) if l is sps else addresses()[0][0])
+                elif e == "slot" and l:
+                    l[0] = Spendable(777, b"\x52", b"\x33" * 32, 1) if l is sps else (addresses()[1][0], 5)
+                elif e == "clear":
+                    l.clear()
+            except Exception:
+                pass
+        after = snap()
+        if after != before:
+            return {"kind": "transaction-changes-when-the-caller-edits-its-own-list", "edit": e, "before": before[1:], "after": after[1:]}
+    return None
+
+
 def prop_cases(rng, tier):
     for pc in _base_prop_cases(rng, tier):
         yield pc
+    for _ in range(40 if tier == "quick" else 1500):
+        spec = gen_create_spec(rng)
+        if not spec["spendables"]:
+            continue
+        tot = sum(s_[0] for s_ in spec["spendables"])
+        fixed = sum(p_[1] or 0 for p_ in spec["payables"])
+        inp = {"spec": spec, "fee": max(0, min(1000, tot - fixed - 10)), "edits": rng.sample(["reverse", "pop", "pop0", "append", "slot", "clear"], 3)}
+        yield PropCase("caller_lists", inp, (lambda inp=inp: chk_caller_lists(inp)))
     for t, hi, lo in refused_specs(rng, tier):
         inp = {"tx": jtx(t), "hi": hi, "lo": lo}
         yield PropCase("refused_distribute", inp, (lambda inp=inp: run_check("refused_distribute", inp)))
@@ -1427,6 +1471,8 @@ def run_check(name, inp):
         return chk_presentation(inp)
     if name == "two_networks":
         return chk_two_networks(inp)
+    if name == "caller_lists":
+        return chk_caller_lists(inp)
     return _base_run_check(name, inp)
 
 
